@@ -1,7 +1,7 @@
 # C14 — only supported commands reach backends; writes only reach masters
 import json, os
 import vlib
-from props.common import differential, add_corr
+from props.common import differential, add_corr, strict_routing
 
 PROP = "C14"
 
@@ -64,6 +64,12 @@ def run(rep, tier, seed, replay):
         rep.violation({"kind": "input", "oracle": "unsupported names (ASCII case-insensitive) must be answered locally with an error and reach no backend; PING/QUIT/SELECT/INFO/TIME/HOTKEY are local; "
                        "a non-read-only request goes to the master owning the key's slot; a read-only one to that master or its replicas as the strategy allows (model proved to satisfy this)",
                        "case": {"line": cases[i]}, "impl": impl[i], "expected": model[i], "disagreeing_cases": len(mm)})
+    # the routing table over a history: a redirection that does not change a slot's owner (ASK) must not change where its
+    # commands go - end to end through the real processor against the cluster simulator
+    v = strict_routing(rep, PROP, seed + 3, 20 if quick else 1000, tier)
+    if v and not found:
+        found = True
+        rep.violation(v)
     if not pr["ok"] and not found:
         rep.violation({"kind": "broken-tie", "theorem": pr.get("broken"), "detail": pr.get("tail"),
                        "searched": "%d requests: implementation agrees with the model" % len(cases)}, found_input=False)
